@@ -481,7 +481,7 @@ func (r *c14Run) settle() {
 	}
 	r.waiting = false
 	w0 := -1
-	deadline := time.Now().Add(30 * time.Second)
+	deadline := time.Now().Add(120 * time.Second)
 	for spin := 0; ; spin++ {
 		select {
 		case c := <-r.gate.calls:
@@ -505,7 +505,11 @@ func (r *c14Run) settle() {
 			}
 		}
 		if time.Now().After(deadline) {
-			panic(fmt.Sprintf("c14: run %d: applier did not settle", r.id))
+			buf := make([]byte, 1<<20)
+			buf = buf[:runtime.Stack(buf, true)]
+			_ = os.WriteFile(os.Getenv("VERIF_OUT")+"/stuck.txt", buf, 0o644)
+			panic(fmt.Sprintf("c14: run %d: applier did not settle (pending=%v waiting=%v started=%v); goroutines in stuck.txt",
+				r.id, r.pending != nil, r.waiting, r.started))
 		}
 		if spin < 50 {
 			runtime.Gosched()
